@@ -489,6 +489,45 @@ pub fn leak_census(report: &mut Report, rounds: usize) -> Result<(), Fail> {
         }
         wtxn.abort();
     }
+    // the default temp directory ($TMPDIR) made unusable, then usable again, for a writer without set_tmpdir.
+    // This phase is single-threaded (the worker threads of the generated part do not exist yet).
+    {
+        let w3 = Writer::<Euclidean>::new(db, 0, 3);
+        let saved = std::env::var_os("TMPDIR");
+        let b = BuildOpts { ix: 0, n_trees: Some(3), split_after: None, avail_mem: None, rng_seed: 3, threads: 1, cancel_at: None };
+        for round in 0..3 {
+            std::env::set_var("TMPDIR", tenv.dir.join(format!("missing-tmp-{round}")));
+            let mut wtxn = tenv.env.write_txn().map_err(|e| Fail::Infra(format!("{e}")))?;
+            let out = do_build::<Euclidean>(&w3, &mut wtxn, &b, 10_000_000);
+            wtxn.abort();
+            let good = tenv.dir.join(format!("good-default-tmp-{round}"));
+            std::fs::create_dir_all(&good).map_err(|e| Fail::Infra(format!("{e}")))?;
+            std::env::set_var("TMPDIR", &good);
+            let mut wtxn = tenv.env.write_txn().map_err(|e| Fail::Infra(format!("{e}")))?;
+            let retry = do_build::<Euclidean>(&w3, &mut wtxn, &b, 10_000_000);
+            wtxn.abort();
+            match &saved {
+                Some(v) => std::env::set_var("TMPDIR", v),
+                None => std::env::remove_var("TMPDIR"),
+            }
+            match out {
+                BuildOutcome::Err(e) if e.starts_with("Io(") || e.starts_with("Heed(Io(") => {}
+                BuildOutcome::Err(e) => return violation("tmpdir:wrong-error", format!("$TMPDIR points to a missing directory: build failed with {e}, expected an io error")),
+                BuildOutcome::Panic(p) => return violation("tmpdir:panic", format!("$TMPDIR missing: build panicked: {}", p.message)),
+                _ => return violation("tmpdir:ignored", "$TMPDIR points to a missing directory, yet a build that stages nodes in temp files returned Ok"),
+            }
+            match retry {
+                BuildOutcome::Ok { .. } => {}
+                BuildOutcome::Err(e) => return violation("retry", format!("after $TMPDIR was pointed at a usable directory again the retry failed: {e}")),
+                _ => return violation("retry", "after $TMPDIR was pointed at a usable directory again the retry did not succeed"),
+            }
+            let left: Vec<_> = std::fs::read_dir(&good).map_err(|e| Fail::Infra(format!("{e}")))?.filter_map(|e| e.ok()).map(|e| e.file_name()).collect();
+            if !left.is_empty() {
+                return violation("leak:tmpfile", format!("temporary files left behind in $TMPDIR: {left:?}"));
+            }
+            report.acc.evaluations += 2;
+        }
+    }
     let fds1 = fd_count();
     report.acc.evaluations += (2 * rounds + rounds / 3) as u64;
     report.acc.extra.insert("fd_census".into(), json!({"before": fds0, "after": fds1, "builds": 2 * rounds + rounds / 3}));
